@@ -525,6 +525,35 @@ func crashJobs(w *world) []job {
 	mc := &mixedCase{name: "mixed-cp-no-payouts", tags: []string{"kind:honest+byzantine", "byz:checkpoint-without-payouts", "regime:v2-checkpoint"},
 		w: w, victim: main.Blocks[:vs], honest: main.Blocks, byz: []byzSpec{{"checkpoint-without-payouts", func() *netx.View { return netx.ViewOf(main) }, noPayouts}}}
 	jobs = append(jobs, job{name: mc.name, quick: true, run: mc.run})
+	// a checkpoint block, at the require height, that carries a v1 transaction. Its ID and commitment
+	// are right (the peer mined it that way) and ValidateOrphan only weighs v1 transactions, but
+	// consensus.ApplyBlock indexes the (empty, after the hardfork mandatory) v1 supplement per v1
+	// transaction. The block is the last of a request below the require height, which the victim (on
+	// a heavier chain of its own) stores without validating; the next request's checkpoint is it.
+	for _, kind := range []string{"arbitrary-data", "siacoin-input", "contract-revision", "storage-proof"} {
+		kind := kind
+		jobs = append(jobs, job{name: "cp-v1-transaction-" + kind, quick: true, run: func(ip string) *vh.Case {
+			req := int(w.nt.N.HardforkV2.RequireHeight)
+			evil := w.nt.NewChain()
+			evil.MineN(req-1, 2*time.Second, 0x91)
+			txn := types.Transaction{ArbitraryData: [][]byte{[]byte("v1 txn in a checkpoint block")}}
+			switch kind {
+			case "siacoin-input":
+				txn = types.Transaction{SiacoinInputs: []types.SiacoinInput{{ParentID: types.SiacoinOutputID{1}}}, SiacoinOutputs: []types.SiacoinOutput{{Value: types.Siacoins(1), Address: types.Address{2}}}}
+			case "contract-revision":
+				txn = types.Transaction{FileContractRevisions: []types.FileContractRevision{{ParentID: types.FileContractID{3}}}}
+			case "storage-proof":
+				txn = types.Transaction{StorageProofs: []types.StorageProof{{ParentID: types.FileContractID{4}}}}
+			}
+			v := bogusView(w, evil, req-1, func(b *types.Block, cs consensus.State) {
+				b.Transactions = []types.Transaction{txn}
+				b.V2.Commitment = cs.Commitment(b.MinerPayouts[0].Address, b.Transactions, b.V2Transactions())
+			}, 5, 0x92)
+			rc := &roundCase{name: "cp-v1-transaction-" + kind, tags: []string{"rpc:SendCheckpoint", "corrupt:v1-transaction-in-checkpoint-block", "regime:v1-then-v2", "txn:" + kind},
+				w: w, victim: main.Blocks, view: v, tie: true, sendCap: uint64(req / 2)}
+			return rc.run(ip)
+		}})
+	}
 	return jobs
 }
 
